@@ -11,36 +11,49 @@ use crate::run::{Params, Run};
 use crate::runq::{run_engine_batch, RowsOutcome};
 use crate::util::{value_sexp, Rng};
 
-/// the property's equality of values: NULL equal to NULL, numbers by value (-0.0 = 0.0, NaN = NaN), everything else
-/// by content; values of different types are different (an INT never equals a REAL here: the code is mirrored where
-/// the sentence is silent)
-fn same_value(a: &Value, b: &Value) -> bool {
+/// the property's equality of values: NULL equal to NULL, numbers by value (-0.0 = 0.0, NaN = NaN; with `by_value`
+/// also an INT and a REAL denoting the same number, as the sentence says — the implementation distinguishes them:
+/// known finding D45), everything else by content
+fn same_value(a: &Value, b: &Value, by_value: bool) -> bool {
     match (a, b) {
+        (Value::Int(x), Value::Float(Float(y))) | (Value::Float(Float(y)), Value::Int(x)) =>
+            by_value && y.is_finite() && y.fract() == 0.0 && y.abs() < 9.0e15 && (*y as i64) == *x,
         (Value::Null, Value::Null) => true,
         (Value::Int(x), Value::Int(y)) => x == y,
         (Value::Float(Float(x)), Value::Float(Float(y))) => (x.is_nan() && y.is_nan()) || x == y,
         (Value::Bool(x), Value::Bool(y)) => x == y,
         (Value::String(x), Value::String(y)) => x == y,
-        (Value::Array(t, xs), Value::Array(u, ys)) => t == u && xs.len() == ys.len() && xs.iter().zip(ys.iter()).all(|(x, y)| same_value(x, y)),
+        (Value::Array(t, xs), Value::Array(u, ys)) => t == u && xs.len() == ys.len() && xs.iter().zip(ys.iter()).all(|(x, y)| same_value(x, y, by_value)),
         (Value::Timestamp(x), Value::Timestamp(y)) => x == y,
         (Value::Interval(x), Value::Interval(y)) => x == y,
         _ => false,
     }
 }
 
-fn same_tuple(a: &[Value], b: &[Value]) -> bool {
-    a.len() == b.len() && a.iter().zip(b.iter()).all(|(x, y)| same_value(x, y))
+fn same_tuple(a: &[Value], b: &[Value], by_value: bool) -> bool {
+    a.len() == b.len() && a.iter().zip(b.iter()).all(|(x, y)| same_value(x, y, by_value))
 }
 
 /// indices of the first occurrences
-fn first_occurrences(rows: &[Vec<Value>]) -> Vec<usize> {
+fn first_occurrences_by(rows: &[Vec<Value>], by_value: bool) -> Vec<usize> {
     let mut kept: Vec<usize> = Vec::new();
     for (i, r) in rows.iter().enumerate() {
-        if !kept.iter().any(|&j| same_tuple(&rows[j], r)) {
+        if !kept.iter().any(|&j| same_tuple(&rows[j], r, by_value)) {
             kept.push(i);
         }
     }
     kept
+}
+
+/// what the sentence demands (numbers by value, across INT and REAL too)
+fn first_occurrences(rows: &[Vec<Value>]) -> Vec<usize> { first_occurrences_by(rows, true) }
+
+/// the failure is exactly the known finding D45: the implementation's answer is the first occurrences under the
+/// type-sensitive equality, and differs from the demanded one only because an INT and a REAL of one value recur
+fn is_d45(rows_p: &[Vec<Value>], got: &[Vec<Value>], limit: Option<usize>) -> bool {
+    let mut strict: Vec<Vec<Value>> = first_occurrences_by(rows_p, false).iter().map(|&i| rows_p[i].clone()).collect();
+    if let Some(n) = limit { strict.truncate(n); }
+    show_rows(got) == show_rows(&strict)
 }
 
 /// exact content (REAL by bits, NaN payload aside)
@@ -55,6 +68,7 @@ fn show_rows(rows: &[Vec<Value>]) -> Vec<String> {
 const SELECT_TEMPLATES: &[&str] = &[
     "SELECT k FROM t", "SELECT r FROM t", "SELECT k, v FROM t", "SELECT v, w, r FROM t", "SELECT s, k FROM t WHERE v IS NOT NULL",
     "SELECT r, k FROM t", "SELECT v + w FROM t", "SELECT create_array(v, w) FROM t", "SELECT r * 1.0, v FROM t", "SELECT * FROM t",
+    "SELECT (CASE WHEN w > 0 THEN v ELSE r END) AS n FROM t", "SELECT k, (CASE WHEN w > 0 THEN v ELSE r END) AS n FROM t",
     "SELECT k, y FROM t INNER JOIN u::'@J' ON t.k = u.k", "SELECT u.v, s FROM t OUTER JOIN u::'@J' ON t.k = u.k", "SELECT y FROM t INNER JOIN u::'@J' ON t.v = u.v",
 ];
 
@@ -214,7 +228,11 @@ pub fn run(p: &Params) -> Run {
             (Ok(a), Ok(b)) => (a, b),
             _ => { run.count("rejected"); continue; }
         };
-        let lines = if rng.chance(3, 4) { gen_dup_lines(&mut rng) } else { let nl = rng.below(12); crate::c04::gen_input(&mut rng, nl, 40, false) };
+        let lines = if text.contains("THEN v ELSE r") {
+            // one output column that is INT on some rows and REAL on others, same numbers
+            let n = rng.below(8);
+            (0..n).map(|_| format!("{};{};{};{};x;", rng.pick(&["a", "b"]), rng.range(0, 3), rng.range(0, 2), rng.pick(&["0", "1", "2", "1.5", "-0.0"]))).collect()
+        } else if rng.chance(3, 4) { gen_dup_lines(&mut rng) } else { let nl = rng.below(12); crate::c04::gen_input(&mut rng, nl, 40, false) };
         let cut = rng.below(lines.len() + 1);
         let files: Vec<Vec<u8>> = if rng.chance(1, 3) { vec![join_lines(&lines[..cut]), join_lines(&lines[cut..])] } else { vec![join_lines(&lines)] };
         let desc = format!("query={} joined={:?} input={:?} cut={}", dtext, jlines, lines, if files.len() > 1 { cut as i64 } else { -1 });
@@ -262,7 +280,7 @@ pub fn run(p: &Params) -> Run {
             let mut expect: Vec<Vec<Value>> = kept.iter().map(|&i| rows_p[i].clone()).collect();
             if let Some(n) = limit_of(&text) { expect.truncate(n); }
             if show_rows(&rows_d) != show_rows(&expect) {
-                let class = classify(&rows_d, &expect);
+                let class = if is_d45(&rows_p, &rows_d, limit_of(&text)) { "D45:distinct-int-real-not-by-value" } else { classify(&rows_d, &expect) };
                 run.fail(desc.clone(), class, format!("DISTINCT gives {:?}, first occurrences of the output without DISTINCT are {:?} (of {:?})", show_rows(&rows_d), show_rows(&expect), show_rows(&rows_p)));
                 continue;
             }
@@ -284,7 +302,7 @@ pub fn run(p: &Params) -> Run {
                     let mut expect: Vec<Vec<Value>> = kept.iter().map(|&i| rows_p[i].clone()).collect();
                     if let Some(n) = limit_of(&text) { expect.truncate(n); }
                     if show_rows(rows_d) != show_rows(&expect) {
-                        let class = format!("agg-{}", classify(rows_d, &expect));
+                        let class = if is_d45(rows_p, rows_d, limit_of(&text)) { "D45:distinct-int-real-not-by-value".to_owned() } else { format!("agg-{}", classify(rows_d, &expect)) };
                         run.fail(desc.clone(), &class, format!("DISTINCT table {:?}, first occurrences of the table without DISTINCT are {:?} (of {:?})", show_rows(rows_d), show_rows(&expect), show_rows(rows_p)));
                         continue;
                     }
